@@ -41,6 +41,14 @@ type W18 struct { // interface-typed slots
 }
 type E18 struct{}
 
+// exported fields are the ones Go says are exported: an upper-case first LETTER, ASCII or not
+type N18 struct {
+	Ärger *int
+	B     *N18
+	Ωmega []int
+	Élan  any
+}
+
 func typeOf18[T any]() reflect.Type { var p *T; return reflect.TypeOf(p).Elem() }
 
 // top-level types (main ones repeated to weight the choice)
@@ -54,6 +62,7 @@ var c18Types = []reflect.Type{
 	typeOf18[[]any](), typeOf18[map[string]any](),
 	typeOf18[*int](), typeOf18[int](), typeOf18[string](),
 	typeOf18[S18](), typeOf18[**S18](), typeOf18[*[]int](), typeOf18[*any](),
+	typeOf18[*N18](), typeOf18[*N18](), typeOf18[[]*N18](),
 }
 
 // dynamic types put into interface-typed slots
@@ -840,6 +849,16 @@ func kids18(x any) (tag int, kids []any) {
 		if v != nil {
 			return 1, []any{}
 		}
+	case *N18:
+		if v != nil {
+			return 1, []any{v.Ärger, v.B, v.Ωmega, v.Élan}
+		}
+	case []*N18:
+		out := []any{}
+		for _, e := range v {
+			out = append(out, e)
+		}
+		return 2, out
 	case []*S18:
 		out := []any{}
 		for _, e := range v {
@@ -891,6 +910,8 @@ func naiveIsNil18(x any) bool {
 	case nil:
 		return true
 	case *S18:
+		return v == nil
+	case *N18:
 		return v == nil
 	case *T18:
 		return v == nil
